@@ -54,6 +54,15 @@ def _jobs(tier):
         for pol in pols:
             for h in (idle_h[:2] if tier == "quick" else idle_h):
                 deep[(hn, H.hist_name(h), pol, "SIM", "G1")] = dict(spec=sp, user=h, policy=pol, clock="SIM", rtf=0)
+    # messages in flight across stop(): throttled simulated clock (connections sleep for the communication delay), long
+    # delay, early stop, and a second episode long enough for a left-over sleeper to land in it
+    for cm in ((16,) if tier == "quick" else (16, 32, 128)):
+        n2 = cm // 4 + 4
+        for h1 in (1, 2):
+            h = [["reset"]] + [["step"]] * h1 + [["stop"], ["reset"]] + [["step"]] * n2 + [["stop"]]
+            for pol in pols:
+                for rtf in (1, 8):
+                    deep[(f"L6.{cm}", H.hist_name(h), pol, f"SIM.rtf{rtf}", "G1")] = dict(spec=H.L6(cm), user=h, policy=pol, clock="SIM", rtf=rtf)
     if tier == "thorough":
         for hn, sp in more.items():
             for pol in pols:
